@@ -58,6 +58,7 @@ def variants():
         if W in (1, 2):
             out.append(('earlysend/W%d' % W, W, -1, 0, 0, [(1, W - 1, '0')]))
             out.append(('stopsend/W%d' % W, W, -1, 0, 0, [(1, W - 1, '0')]))
+            out.append(('stopsend/W%d/pvt' % W, W, -1, 1, 0, [(1, W, '0')]))       # ... and to the pool's virtual thread after tp_shutdown()
             out.append(('detachsend/W%d' % W, W, -1, 0, 0, [(1, W - 1, '0')]))
         # pool virtual thread as destination
         for faults in (0, 1):
